@@ -22,6 +22,7 @@ pub fn canon<'gc>(any: AnyGc<'gc>) -> AnyGc<'gc> {
         // SAFETY: NodeE / NodeD are only ever made from a Gc<RefLock<NodeBody>> (see `convert`)
         AnyGc::NodeE(g) => AnyGc::Node(unsafe { Gc::cast::<RefLock<NodeBody<'gc>>>(g) }),
         AnyGc::NodeD(g) => AnyGc::Node(unsafe { Gc::cast::<RefLock<NodeBody<'gc>>>(g) }),
+        AnyGc::NodeM(g) => AnyGc::Node(Gc::erase_kind(g)),
         AnyGc::ThinSlice(g) => AnyGc::Slice(Gc::as_fat(g)),
         AnyGc::ThinSwh(g) => AnyGc::Swh(Gc::as_fat(g)),
         other => other,
@@ -46,6 +47,20 @@ pub fn convert<'gc>(mc: &Mutation<'gc>, any: AnyGc<'gc>, conv: Conv) -> (AnyGc<'
         (AnyGc::Node(g), Conv::Raw) => {
             let back = unsafe { Gc::from_ptr(Gc::as_ptr(g)) };
             (AnyGc::Node(back), (!Gc::ptr_eq(back, g)).then(|| "as_ptr -> from_ptr: not ptr_eq".to_string()))
+        }
+        (AnyGc::Node(g), Conv::Kind) if node_tag_of(g.borrow().id) != 0 => {
+            // SAFETY: nodes with such an id were allocated through
+            // GcBuilder::<_, NodeTag>::new_with_type_meta (access::alloc), i.e. with this very kind
+            let m: Gc<'gc, RefLock<NodeBody<'gc>>, KNodeM> = unsafe { Gc::from_ptr_with_kind(Gc::as_ptr(g)) };
+            let back = Gc::erase_kind(m);
+            let e = if !Gc::ptr_eq(back, g) {
+                Some("from_ptr_with_kind -> erase_kind: not ptr_eq".to_string())
+            } else if m.borrow().id != g.borrow().id {
+                Some("a pointer given back its allocation kind reads a different value".to_string())
+            } else {
+                None
+            };
+            (AnyGc::NodeM(m), e)
         }
         (AnyGc::Field(g), Conv::Raw) => {
             let back = unsafe { Gc::from_ptr(Gc::as_ptr(g)) };
@@ -89,7 +104,7 @@ pub fn kind_of(any: AnyGc<'_>) -> Kind {
         AnyGc::Swh(g) => Kind::Swh { len: g.slice.len() as u8 },
         // what an opaque leaf is (layout entry, builder product, ZstCache object) is in the shadow
         AnyGc::Opaque(_) => Kind::Lay { t: 255, len: 0 },
-        AnyGc::ThinSlice(_) | AnyGc::ThinSwh(_) | AnyGc::NodeE(_) | AnyGc::NodeD(_) => unreachable!(),
+        AnyGc::ThinSlice(_) | AnyGc::ThinSwh(_) | AnyGc::NodeE(_) | AnyGc::NodeD(_) | AnyGc::NodeM(_) => unreachable!(),
     }
 }
 
@@ -122,7 +137,13 @@ pub fn alloc<'gc>(mc: &Mutation<'gc>, kind: Kind, id: Id) -> AnyGc<'gc> {
         Kind::Node => {
             let v = RefLock::new(NodeBody { id, tok: Tok(id), strong: vec![None; NODE_STRONG], fp: FaultPoint(id), weak: vec![None; NODE_WEAK] });
             let _t = seam::track();
-            AnyGc::Node(Gc::new(mc, v))
+            // some nodes are allocated with per-type metadata (a vtable of their own per
+            // (type, metadata) pair) and then handed on as ordinary pointers through erase_kind
+            AnyGc::Node(match node_tag_of(id) {
+                1 => Gc::erase_kind(gc_arena::GcBuilder::<_, NodeTag>::new_with_type_meta::<TagA>().write(mc, v)),
+                2 => Gc::erase_kind(gc_arena::GcBuilder::<_, NodeTag>::new_with_type_meta::<TagB>().write(mc, v)),
+                _ => Gc::new(mc, v),
+            })
         }
         Kind::Field => {
             let mut hm: HashMap<u8, Lock<Edge<'gc>>, FixedHasher> = HashMap::default();
@@ -209,7 +230,7 @@ pub fn read_strong<'gc>(any: AnyGc<'gc>, k: usize) -> Edge<'gc> {
             }
         }
         AnyGc::Opaque(_) => None,
-        AnyGc::ThinSlice(_) | AnyGc::ThinSwh(_) | AnyGc::NodeE(_) | AnyGc::NodeD(_) => unreachable!(),
+        AnyGc::ThinSlice(_) | AnyGc::ThinSwh(_) | AnyGc::NodeE(_) | AnyGc::NodeD(_) | AnyGc::NodeM(_) => unreachable!(),
         AnyGc::Node(g) => g.borrow().strong[k],
         AnyGc::Field(g) => match k {
             0 => g.a.get(),
@@ -290,7 +311,7 @@ pub fn write_strong<'gc>(mc: &Mutation<'gc>, any: AnyGc<'gc>, self_id: Id, k: us
             Wrote::Done
         }
         AnyGc::Opaque(_) => Wrote::Refused,
-        AnyGc::ThinSlice(_) | AnyGc::ThinSwh(_) | AnyGc::NodeE(_) | AnyGc::NodeD(_) => unreachable!(),
+        AnyGc::ThinSlice(_) | AnyGc::ThinSwh(_) | AnyGc::NodeE(_) | AnyGc::NodeD(_) | AnyGc::NodeM(_) => unreachable!(),
         AnyGc::Node(g) => {
             match route {
                 Route::WriteUnlock => Gc::write(mc, g).unlock().borrow_mut().strong[k] = v,
